@@ -269,6 +269,9 @@ class Partitioned(struct.PyTreeNode, AxisMetadata[A]):
   def add_axis(self, index: int, params: dict[Any, Any]) -> 'Partitioned[A]':
     axis_name = self._get_partition_name(params)
     names = list(self.names)
+    if index < 0:
+      # the boxed value already has the new axis: count from its end
+      index += getattr(self.value, 'ndim', len(names) + 1)
     while len(names) < index:
       names.append(None)  # type: ignore
     names.insert(index, axis_name)  # type: ignore
@@ -277,6 +280,8 @@ class Partitioned(struct.PyTreeNode, AxisMetadata[A]):
   def remove_axis(self, index: int, params: dict[Any, Any]) -> 'Partitioned[A]':
     axis_name = self._get_partition_name(params)
     names = list(self.names)
+    if index < 0:
+      index += getattr(self.value, 'ndim', len(names))
     assert names.pop(index) == axis_name
     return self.replace(names=tuple(names))
 
